@@ -87,7 +87,7 @@ def check(prop, tier):
         p = os.path.join(tlc.workdir("crcdrv"), "o.json")
         run_driver("crc_driver.py", ["--out", p, "--mode", mode, "--seed", sd, "--n", n, "--first-id", first])
         return json.load(open(p))
-    parts = parallel([lambda: drv("all1", 1), lambda: drv("pairs", 1000), lambda: drv("long", 90000),
+    parts = parallel([lambda: drv("all1", 1), lambda: drv("pairs", 1000), lambda: drv("long", 90000), lambda: drv("inplace", 95000),
                       lambda: drv("random", 100000, 500 if tier == "quick" else 20000)])
     traces = [t for p in parts for t in p]
     canary = copy.deepcopy(traces[300])
